@@ -98,7 +98,7 @@ def r1_results_page(ctx):
     if g is not f:
         # closure form: g is passed to Option::map over last()
         maps = []
-        for mbb, mt in f.live_calls(r"Option::<T>::map$"):
+        for mbb, mt in f.live_calls(r"Option::<T>::(map|and_then)$"):
             h, _n = closure_of_operand(f, mt["args"][1])
             if h is g:
                 maps.append((mbb, mt))
@@ -119,9 +119,9 @@ def r1_results_page(ctx):
         for o in node["rv"]["ops"]:
             caps |= set(f.slice(o).params())
         ctx.check(R, "selector-and-scan-params-are-the-arguments", caps == {2, 3}, "closure captures parameters %s (scan_params, get_page_selector)" % sorted(caps), (f, mbb))
-        badn = callee_allow(next_sl, PLUMBING + [LAST, r"Option::<T>::map$", r"Option::<std::result::Result<T, E>>::transpose$"] + VEC_VIEW)
+        badn = callee_allow(next_sl, PLUMBING + [LAST, r"Option::<T>::(map|and_then)$", r"Option::<std::result::Result<T, E>>::transpose$"] + VEC_VIEW)
         guarded_sites = [abb]
-        ctx.check(R, "next_page-present-iff-last-is", any(b == mbb for _, b, _ in next_sl.calls(r"Option::<T>::map$")) and not badn,
+        ctx.check(R, "next_page-present-iff-last-is", any(b == mbb for _, b, _ in next_sl.calls(r"Option::<T>::(map|and_then)$")) and not badn,
                   "ResultsPage.next_page derives from last(items).map(token closure) via %s (Some-ness preserving)" % ([b[0] for b in badn] or "transpose and `?` only"), (f, abb))
     else:
         # inline form: match items.last() { Some(x) => Some(token(x)?), None => None }
